@@ -6,7 +6,7 @@ from __future__ import annotations
 import ast
 from typing import Any, Dict, Optional, Sequence
 
-from .constfold import Folder, Unfoldable
+from .constfold import Folder, Unfoldable, truth
 
 
 class FragRaise(Exception):
@@ -26,7 +26,7 @@ class FragReturn(Exception):
         self.value = value
 
 
-def run_fragment(body: Sequence[ast.stmt], names: Dict[str, Any], attrs: Optional[Dict[str, Any]] = None, max_steps: int = 20000, funcs: Optional[Dict[str, ast.FunctionDef]] = None, materialise: bool = False) -> Dict[str, Any]:
+def run_fragment(body: Sequence[ast.stmt], names: Dict[str, Any], attrs: Optional[Dict[str, Any]] = None, max_steps: int = 20000, funcs: Optional[Dict[str, ast.FunctionDef]] = None, materialise: bool = False, ctors: Optional[Dict[str, Any]] = None) -> Dict[str, Any]:
     env = dict(names)
     attrs = dict(attrs or {})
     steps = [0]
@@ -35,15 +35,19 @@ def run_fragment(body: Sequence[ast.stmt], names: Dict[str, Any], attrs: Optiona
         f = Folder(env, attrs)
         f.funcs = dict(funcs or {})
         f.materialise = materialise
+        f.ctors = dict(ctors or {})
         return f.fold(e)
 
     def store_sub(t: ast.Subscript, v):
         """M[i] = v, M[i, j] = v, M[:, j] = v, M[i, :] = v on a nested-list value bound to a name"""
         import copy
 
-        if not (isinstance(t.value, ast.Name) and isinstance(env.get(t.value.id), list)):
+        from .astutil import attr_chain as _chain
+
+        in_attrs = isinstance(t.value, ast.Attribute) and isinstance(attrs.get(_chain(t.value)), list)
+        if not in_attrs and not (isinstance(t.value, ast.Name) and isinstance(env.get(t.value.id), list)):
             raise Unfoldable("subscript store into something that is not a list value")
-        base = copy.deepcopy(env[t.value.id])
+        base = copy.deepcopy(attrs[_chain(t.value)] if in_attrs else env[t.value.id])
 
         def part(e):
             if isinstance(e, ast.Slice):
@@ -76,7 +80,10 @@ def run_fragment(body: Sequence[ast.stmt], names: Dict[str, Any], attrs: Optiona
                 raise Unfoldable("store with more than two indices")
         except (IndexError, TypeError) as exc:
             raise Unfoldable(f"subscript store: {exc}")
-        env[t.value.id] = base
+        if in_attrs:
+            attrs[_chain(t.value)] = base
+        else:
+            env[t.value.id] = base
 
     def bind(t, v):
         if isinstance(t, ast.Name):
@@ -173,10 +180,7 @@ def run_fragment(body: Sequence[ast.stmt], names: Dict[str, Any], attrs: Optiona
             elif isinstance(st, ast.Continue):
                 raise _Continue()
             elif isinstance(st, ast.If):
-                t = fold(st.test)
-                if isinstance(t, list):
-                    raise Unfoldable("tensor-valued condition")
-                run(st.body if t else st.orelse)
+                run(st.body if truth(fold(st.test)) else st.orelse)
             elif isinstance(st, ast.Raise):
                 raise FragRaise()
             elif isinstance(st, ast.Return):
